@@ -194,6 +194,20 @@ let () =
              { M.an_kind = (match ty with "fl" -> M.FileLabel | "fd" -> M.FileDesc | "ol" -> M.ObjLabel | _ -> M.ObjDesc);
                an_tag = tag; an_ref = r; an_text = txt }) in
            print_lines id (M.ann_views l)
+         | "dfsdseq" ->
+           let n = next_int () in
+           let hx s = if s = "_" then [] else bytes_of_hex s in
+           let ops = List.init n (fun _ ->
+             match next () with
+             | "D" -> let r = next_int () in M.OpDims (List.init r (fun _ -> nextz ()))
+             | "N" -> M.OpNT (nextz ())
+             | "S" -> let d = nextz () in let h = next () in M.OpScale (d, if h = "-" then None else Some (bytes_of_hex h))
+             | "T" -> let a = hx (next ()) in let b = hx (next ()) in let c = hx (next ()) in M.OpStrs (a, b, c)
+             | "X" -> let d = nextz () in let a = hx (next ()) in let b = hx (next ()) in let c = hx (next ()) in M.OpDimStrs (d, a, b, c)
+             | "R" -> let a = bytes_of_hex (next ()) in let b = bytes_of_hex (next ()) in M.OpRange (a, b)
+             | "A" -> M.OpAdd (bytes_of_hex (next ()))
+             | _ -> M.OpClear) in
+           print_lines id (M.sds_views (z_of_int 1) (M.dfsd_session ops))
          | "rawsds" ->
            let form = next () in
            let n = next_int () in
